@@ -1,0 +1,15 @@
+//go:build verif
+
+package override
+
+// VerifTables exports the pattern keys of the rule tables (verification builds only).
+func VerifTables() map[string][]string {
+	out := map[string][]string{}
+	for k := range mergeSpecials {
+		out["override.mergeSpecials"] = append(out["override.mergeSpecials"], string(k))
+	}
+	for k := range unique {
+		out["override.unique"] = append(out["override.unique"], string(k))
+	}
+	return out
+}
